@@ -220,6 +220,7 @@ func (n *FromNode) UnmarshalJSON(data []byte) error {
 		return err
 	}
 
+	n.Dimensions = unmarshalDimensions(n.Dimensions)
 	n.setID(raw.ID)
 	return nil
 }
